@@ -77,6 +77,32 @@ fn flip_bit(bs: &[u8], i: usize) -> Vec<u8> {
     }
     v
 }
+/// a message RELATED to `m`: whitespace / BOM / NUL added, stripped, case changed, interior space doubled
+fn related(m: &[u8], i: u64) -> Vec<u8> {
+    let ws = |b: &u8| matches!(*b, 9 | 10 | 11 | 12 | 13 | 32);
+    let mut v = m.to_vec();
+    match i {
+        0 => { v.insert(0, b' '); v }
+        1 => { v.push(b'\n'); v }
+        2 => { v.push(b' '); v }
+        3 => { v.insert(0, b'\t'); v }
+        4 => {
+            let a = m.iter().position(|b| !ws(b)).unwrap_or(m.len());
+            let e = m.iter().rposition(|b| !ws(b)).map(|x| x + 1).unwrap_or(a);
+            m[a..e].to_vec()
+        }
+        5 => { let mut w = vec![0xef, 0xbb, 0xbf]; w.extend_from_slice(m); w }
+        6 => { v.push(0); v }
+        7 => m.iter().map(|b| b.to_ascii_uppercase()).collect(),
+        8 => m.iter().map(|b| b.to_ascii_lowercase()).collect(),
+        9 => match m.iter().position(|b| *b == b' ') { Some(k) => { v.insert(k, b' '); v } None => { v.extend_from_slice(b"  "); v } },
+        10 => { v.extend_from_slice(b"\r\n"); v }
+        11 => { v.insert(0, 0x0c); v }
+        12 => { v.insert(0, 0x0b); v }
+        13 => { v.insert(0, b'\n'); v.push(b'\t'); v }
+        _ => { v.insert(0, 0); v }
+    }
+}
 fn own_address(k: &PrivateKey, p: u8) -> Option<P2PKHAddress> {
     k.to_public_key().ok()?.to_p2pkh_address().ok()?.set_chain_params(&chain(p)).ok()
 }
@@ -215,6 +241,7 @@ pub fn run(op: &str, args: &[String]) -> Option<String> {
             // (message, signature, address) after tampering; a signature that no longer parses counts as rejected
             let (m2, sg2, a2): (Vec<u8>, Option<Signature>, P2PKHAddress) = match kind.as_str() {
                 "m" => (flip_bit(&msg, idx), Some(sg.clone()), a.clone()),
+                "w" => (related(&msg, i), Some(sg.clone()), a.clone()),
                 "s" => (msg.clone(), Signature::from_compact_bytes(&flip_bit(&sg.to_compact_bytes(None), idx % 520)).ok(), a.clone()),
                 "h" => (msg.clone(), Some(sg.clone()), some!(make_addr(p, &flip_bit(&a.to_pubkey_hash(), idx % 160)))),
                 "c" => (msg.clone(), Some(sg.clone()), some!(own_address(&k.compress_public_key(!c), p))),
@@ -243,12 +270,13 @@ pub fn run(op: &str, args: &[String]) -> Option<String> {
             };
             match sg2 {
                 Some(s2) => format!(
-                    "OK:{};{};{}",
+                    "OK:{};{};{};{}",
                     show_v(BSM::verify_message(&m2, &s2, &a2)),
                     BSM::is_valid_message(&m2, &s2, &a2) as u8,
-                    a2.is_valid_bitcoin_message(&m2, &s2) as u8
+                    a2.is_valid_bitcoin_message(&m2, &s2) as u8,
+                    show_v(a2.verify_bitcoin_message(&m2, &s2))
                 ),
-                None => "OK:E;0;0".into(),
+                None => "OK:E;0;0;E".into(),
             }
         }
         _ => return None,
